@@ -5,7 +5,7 @@
    top-level values of the extracted file share a name (definitions in different Coq
    files must have distinct names). *)
 From Coq Require Import Extraction ExtrOcamlBasic NArith ZArith QArith Qreduction List.
-From JLS Require Import Generated CrcDefs Spec StatsQ MrbModel TmapModel.
+From JLS Require Import Generated CrcDefs Spec StatsQ MrbModel TmapModel BitCopyModel FsrPackModel Format Decode WriteOnce DefsModel PyramidModel SigDef.
 Extraction Language OCaml.
 Extraction "jlsmodel_ext"
   BinInt.Z.add BinInt.Z.opp BinInt.Z.of_N BinInt.Z.to_N BinNat.N.add BinNat.N.mul BinNat.N.of_nat BinNat.N.to_nat
@@ -20,4 +20,21 @@ Extraction "jlsmodel_ext"
   TmapModel.tmap_sample_id_to_timestamp TmapModel.tmap_timestamp_to_sample_id
   TmapModel.tmap_sample_id_to_timestamp_old TmapModel.tmap_timestamp_to_sample_id_old
   TmapModel.TMAP_ERROR_UNAVAILABLE TmapModel.TMAP_TIME_SECOND TmapModel.TMAP_CELL_BYTES
-  Generated.JLS_ERROR_PARAMETER_INVALID Generated.SIZEOF_utc_summary_entry.
+  Generated.JLS_ERROR_PARAMETER_INVALID Generated.SIZEOF_utc_summary_entry
+  BitCopyModel.bc_bit_copy BitCopyModel.bc_bit_copy_slow BitCopyModel.bc_bits
+  FsrPackModel.fp_run FsrPackModel.fp_close FsrPackModel.fp_rd_blocks FsrPackModel.fp_fill_buf
+  FsrPackModel.FP_FILL_BYTES Spec.fill_value
+  Decode.dw_walk Decode.dw_walk_report Decode.dw_content_of Decode.dw_stream WriteOnce.wo_run WriteOnce.wo_st0
+  WriteOnce.wo_check_log WriteOnce.wo_check_log_lenient WriteOnce.wo_file_after Format.fm_encode_file_header
+  Format.fm_encode_chunk Format.fm_decode_chunk_header Format.fm_decode_file_header
+  PyramidModel.py_srun PyramidModel.py_run PyramidModel.py_fsr_length PyramidModel.py_fsr_seek
+  PyramidModel.py_rd_data0 PyramidModel.py_cache0 PyramidModel.py_step PyramidModel.py_cap
+  PyramidModel.py_chunk_level PyramidModel.py_chunk_tag PyramidModel.py_consistentb
+  Spec.source0 Spec.signal0 Spec.sp_align
+  DefsModel.df_enc_str DefsModel.df_dec_str DefsModel.df_rd_str DefsModel.df_rd_skip DefsModel.df_rd_u8
+  DefsModel.df_rd_u16 DefsModel.df_rd_u32 DefsModel.df_enc_source_def DefsModel.df_dec_source_def
+  DefsModel.df_enc_signal_def DefsModel.df_dec_signal_def DefsModel.df_str_fitsb DefsModel.df_open
+  DefsModel.df_step DefsModel.df_run DefsModel.df_scan DefsModel.df_rd_sources DefsModel.df_rd_signals
+  DefsModel.df_rd_signal DefsModel.df_rd_user_data DefsModel.df_op_of
+  SigDef.sd_define SigDef.sd_align_fast SigDef.sd_validate SigDef.sd_defaults SigDef.sample_size SigDef.consistent_clauses
+  SigDef.consistentb SigDef.entry256b SigDef.sd_loop_args.
